@@ -51,6 +51,9 @@ def main(
     """
     with open(input_envelope, "rb") as fh:
         envelope = cbor2.load(fh)
+    if not isinstance(envelope.value, dict):
+        # cbor2 >= 6 decodes tagged content into immutable containers - use a modifiable copy
+        envelope = cbor2.CBORTag(envelope.tag, dict(envelope.value))
     extracted_payload = envelope.value.pop(payload_name, None)
 
     if extracted_payload is None:
